@@ -25,6 +25,24 @@ def opsBits (op : String) (args : List SExp) : Option String :=
       match readAsBytes ⟨d, p⟩ n with
       | .ok (v, r) => pure s!"ok {showHex v} {r.pos} {if r.data == d then "same" else "changed"}"
       | .error e => pure (showBitErr e)
+  | "rseq", [d, p, .list ops] => do
+      -- a history of reads on one buffer object: `(i n)` = read_as_int(n), `(b n)` = read_as_bytes(n)
+      let d ← d.hex?; let p ← p.nat?
+      let rec go (r : Raw) (ops : List SExp) (acc : String) : Option String :=
+        match ops with
+        | [] => some (acc ++ s!" end {r.pos} {if r.data == d then "same" else "changed"}")
+        | .list [.atom k, n] :: rest => do
+          let n ← n.int?
+          if k == "i" then
+            match readAsInt r n with
+            | .ok (v, r') => go r' rest (acc ++ s!" {v}")
+            | .error _ => some (acc ++ " err")
+          else
+            match readAsBytes r n with
+            | .ok (v, r') => go r' rest (acc ++ s!" {showHex v}")
+            | .error _ => some (acc ++ " err")
+        | _ => none
+      go ⟨d, p⟩ ops "seq"
   | _, _ => none
 
 end Driver
